@@ -148,6 +148,12 @@ func (k Keeper) ClaimFromStream(ctx sdk.Context, receiverAddr, senderAddr sdk.Ac
 	return receiverAmount, valFee, claimTotal, remainingDeposit, nil
 }
 
+// addSeconds returns t plus a whole number of seconds. time.Second * time.Duration(seconds) overflows
+// for more than ~292 years and would silently wrap the result into the past.
+func addSeconds(t time.Time, seconds int64) time.Time {
+	return time.Unix(t.Unix()+seconds, int64(t.Nanosecond())).In(t.Location())
+}
+
 func (k Keeper) AddDeposit(ctx sdk.Context, receiverAddr, senderAddr sdk.AccAddress, topUpDeposit sdk.Coin) (bool, error) {
 
 	stream, ok := k.GetStream(ctx, receiverAddr, senderAddr)
@@ -186,10 +192,10 @@ func (k Keeper) AddDeposit(ctx sdk.Context, receiverAddr, senderAddr sdk.AccAddr
 		}
 
 		// stream expired or new. Calculate from now
-		depositZeroTime = nowTime.Add(time.Second * time.Duration(durationExtension))
+		depositZeroTime = addSeconds(nowTime, durationExtension)
 	} else {
 		// stream not expired. Add to current deposit zero time
-		depositZeroTime = stream.DepositZeroTime.Add(time.Second * time.Duration(durationExtension))
+		depositZeroTime = addSeconds(stream.DepositZeroTime, durationExtension)
 	}
 
 	// Send topUpDeposit from user acc to module acc
@@ -259,7 +265,7 @@ func (k Keeper) SetNewFlowRate(ctx sdk.Context, receiverAddr, senderAddr sdk.Acc
 		// above. We're effectively creating a "new" stream, based on existing deposit value
 		// and the new flow rate
 		duration = types.CalculateDuration(stream.Deposit, newFlowRate)
-		depositZeroTime = nowTime.Add(time.Second * time.Duration(duration))
+		depositZeroTime = addSeconds(nowTime, duration)
 	}
 
 	// save new stream data
